@@ -209,6 +209,11 @@ def run(ctx, ck) -> None:
             t = term(p.node.value, e)
             cls_param = ('var', fn.args.args[0].arg)
             ok = raw[0] == 'call' and raw[1] == cls_param and [a[1] if a[0] == 'var' else None for a in raw[2]] == fields
+            # or: the promoted tuple of exactly these components, unpacked into the constructor
+            if not ok and t[0] == 'call' and t[1] == cls_param and len(t[2]) == 1 and t[2][0][0] == 'star':
+                inner = t[2][0][1]
+                if inner[0] == 'call' and inner[1] == ('var', 'as_promoted_dtype') and len(inner[2]) == 1 and inner[2][0][0] == 'tuple':
+                    ok = [a[1] if a[0] == 'var' else None for a in inner[2][0][1:]] == fields
             # the promotion tuple packs and unpacks in the same order
             promo_ok = True
             for st in p.stmts():
